@@ -27,8 +27,8 @@ CHECKS = {
          "Gap bounds and round-robin structure full; 4/3 - 1/(3k) proved in full for LPT and for Karmarkar-Karp; PARTIAL: LPT's max-min ratio proved as 2k/(3k-1) (exact ratio under a window hypothesis), multifit proved <= (4/3 + 2^-it) OPT instead of 1.22 + 2^-it; the sharp constants are searched for counter-examples with the verified oracle on every run.", TB),
  "C09": ("proof", "Lean 4 theorems ff/bf(±decreasing)_anyfit, ff/bf_seventeen_tenths_strong (<= 1.7 OPT + 1), ffd/bfd_three_halves, ffd/bfd_partial_four_thirds + verified optBins oracle",
          "Any-fit invariant proved in full for all four heuristics in every arrival order; PARTIAL bounds: FF, BF <= floor(1.7 OPT) + 1 (weighting-function proof), FFD, BFD <= 3/2 OPT and <= (4 OPT + 1)/3, 11/9 outside one range of the last item's size; the absolute 1.7 and the 11/9 bounds are searched with the verified oracle.", TB),
- "C10": ("proof", "Lean 4 theorems cover_le_opt, coverDecreasing_half, twoThirds_two_thirds, threeQuarters_half + verified optCover oracle",
-         "ALG <= OPT proved for all three; the decreasing heuristic's (OPT-1)/2 and the two-thirds algorithm's 2/3 (OPT-1) proved in full; PARTIAL for three-quarters (OPT <= 2 ALG + 1 proved; 3/4 OPT - 4 searched with the verified oracle, proof in progress).", TB),
+ "C10": ("proof", "Lean 4 theorems cover_le_opt, coverDecreasing_half, twoThirds_two_thirds, threeQuarters_three_quarters + verified optCover oracle",
+         "Full: ALG <= OPT for all three; (OPT-1)/2 for the decreasing heuristic, 2/3 (OPT-1) for two-thirds (2 OPT <= 3 ALG + 1) and 3/4 OPT - 4 for three-quarters (3 OPT <= 4 ALG + 9) are proved for all inputs by weighting-function arguments; every run also compares with the verified oracle optCover.", TB),
  "C13": ("proof", "Lean 4 theorems lb_admissible, lb_sorted_flag, genTree_eq, lexPerms_*, allCombSums_*, allCombContents_* + correspondence on direct calls",
          "Full: admissibility of the three lower bounds and independence of the sorted flag; the in/ex tree equals the filter of all sub-lists; all_combinations of both managers sound, complete and duplicate-free (distinctness on the manager's canonical form, DESIGN section 10).", TB),
  "C20": ("proof", "Lean 4 theorems value_eq_doc, value_perm, value_sorted_fast, weighted_def + correspondence on direct calls",
